@@ -80,6 +80,8 @@ runs); any exit other than 0 is an alarm on code where the property holds. Alarm
 
 %s
 
+After round 8 extended C17's cast, all seventy-nine changes were run again under the changed C17 check: all silent. That pass showed that one of them, C17-P, had not built since F39 (a 3-way application that no longer compiled; the pass after F39 carried its earlier results forward); it was re-cut against HEAD with F39 kept and run under all twenty checks again.
+
 After the corrections all seventy-nine changes are silent under all twenty checks (`benign/RESULTS.md`, written by `benign_results.py` from the last run) (patches that later `fix:` commits collided with were re-cut against HEAD with the fixes kept).
 """ % (len(rows), own_n, sum(1 for r in rows if "**not detected**" not in r), "\n".join(rows), open('/verif/benign/ALARMS.md').read().strip())
 p = '/verif/DESIGN.md'
